@@ -220,6 +220,11 @@ def validate(ctx, trace, chunk_tables=12):
                 if '"ev":"Table"' in l:
                     table_line = l
             pos += idx - extra
+            if ev.get("ev") == "Table":
+                # the table itself was rejected: its lookups cannot be judged, resume at the next table
+                table_line = None
+                while pos < len(part) and '"ev":"Table"' not in part[pos]:
+                    pos += 1
             guard += 1
             if guard >= 3:
                 # each restart costs a JVM start; three rejected events in one chunk are reported, the
